@@ -15,6 +15,9 @@ def load_dump(path):
     D = json.load(open(path))
     TYPES = D['types']
     FUNCS = D['funcs']
+    for t in TYPES.values():
+        if t.get('kind') == 'array':
+            t.setdefault('len', 0)
     for f in FUNCS.values():
         rt = {}
         for p, t in zip(f.get('params') or [], f.get('ptypes') or []):
